@@ -179,6 +179,9 @@ Section Tab.
   Lemma indep_unique_t i j t : i < N -> In i (indep_atoms nlp N act) -> In j (indep_atoms nlp N act) -> t < nlp -> act t i = j -> i = j.
   Proof. intros Hi Hii Hij Ht E. apply (indep_unique_in_orbit nlp N act) with (t := t); grp. Qed.
 
+  Lemma orbit_nodup_t i : i < N -> NoDup (orbit nlp act i).
+  Proof. intros Hi. apply orbit_nodup with (N := N); grp. Qed.
+
   Lemma sclass_complete_t a a' : a <> [] -> in_range N a -> in_range N a' -> length a = length a' ->
     (sclass_t a = sclass_t a' <-> exists t, t < nlp /\ shift act t a = a').
   Proof.
